@@ -43,6 +43,13 @@ CLAIMED = {
         "pylsqpack raise behaviour from a table; one assumption about resume_header; TypeErrors not modelled.",
         "DESIGN.md#c16",
     ),
+    "C15": (
+        "other",
+        "comparison-partition evaluation of the header validators' decision trees (every byte value x position class, all representative combinations up to length 3, regex atoms included) against an RFC 9113/9114 reference; CFG reachability (no path to an event construction avoids its validator); def-use and guard extraction for pseudo-header and content-length bookkeeping",
+        "R1 is exhaustive and exact for the character-class clause: the validators touch bytes only through comparisons with constants (anything else stops the analysis), so evaluating the extracted decision tree on the induced partition decides all inputs (about 2,600 decisions + 2 x 19k representative combinations). R2-R5 decide on all paths that the pseudo-header order/allow/repeat/required checks guard raises, that no HeadersReceived/PushPromiseReceived/DataReceived construction is reachable without the matching validator / body-byte count / content-length comparison, and that rejections are MessageError (0x10E) converted into close().",
+        "Level 'other' because R2-R4 are necessary structural conditions, not an equivalence proof with an independent validator on whole messages; the reference table is transcribed by hand from the RFCs.",
+        "DESIGN.md#c15",
+    ),
 }
 
 NOT_APPLICABLE = {
